@@ -62,8 +62,10 @@ META = {
         "update); a restore that is skipped for some caller for which the change happens (facts on nested_render_text parameters evaluated per call site: omitted -> "
         "default, constant -> value, other explicit argument -> not None) is a violation; a caller that passes no heading offset leaves the offset unchanged (the write "
         "is skipped under the parameter's default or writes the current offset itself; repair fce582c), and inside an include the offset in force is the enclosing "
-        "offset + the :heading-offset: option exactly once (composed by the include or by nested_render_text); while a temp root is set the level map is re-rooted at "
-        "it (every open level -> the temp root, or {0: root}; repair 4629fdf), so sections of a match_titles body are attached to the directive's node; every other change of the offset or "
+        "offset + the :heading-offset: option exactly once when the option is given and the enclosing offset alone when it is not (both cases are evaluated: "
+        "`options.get(k, default)` yields the option or its default, `A if k in options else B` selects a branch; composed by the include or by nested_render_text); "
+        "while a temp root is set the level map is re-rooted at it: EVERY entry maps to the temp root (conditional values, a copied entry or a filter that drops "
+        "level 0 are violations; {0: root} and dict.fromkeys are accepted; repair 4629fdf), so sections of a match_titles body are attached to the directive's node; every other change of the offset or "
         "the temp root during a render must be such a pair itself; a non-None temp_root_node is passed only as `<node> if <flag> else None` where <flag> is traced "
         "to the match_titles parameter of a docutils-state nested_parse and <node> is the argument of the enclosing current_node_context - any other caller "
         "passing a temp root is a violation; the level registered by the section path is exactly tag digit + "
@@ -2040,8 +2042,10 @@ def _fact_under_defaults(fn: FunctionInfo, t: ast.expr, pol: bool) -> bool | Non
     return None if val is None else (val == pol)
 
 
-def _offset_terms(e: ast.expr, param: str | None, param_value: int | None = None, option_ok: bool = False, cell_names: frozenset = frozenset()) -> list | None:
+def _offset_terms(e: ast.expr, param: str | None, param_value: int | None = None, option_ok: bool = False, cell_names: frozenset = frozenset(), option_given: bool = True, resolve=None) -> list | None:
     """Signed sum over CELL (a read of _heading_offset), PARAM, OPTION (options['heading-offset']) and an integer constant."""
+
+    budget = [20]
 
     def rec(x):
         if isinstance(x, ast.BinOp) and isinstance(x.op, (ast.Add, ast.Sub)):
@@ -2058,8 +2062,23 @@ def _offset_terms(e: ast.expr, param: str | None, param_value: int | None = None
             return [(1, "PARAM")] if param_value is None else ([(1, param_value)] if param_value else [])
         if isinstance(x, ast.Constant) and isinstance(x.value, int) and not isinstance(x.value, bool):
             return [(1, x.value)] if x.value else []
-        if option_ok and _is_offset_option(x):
-            return [(1, "OPTION")]
+        if isinstance(x, ast.Name) and resolve is not None and budget[0] > 0:
+            budget[0] -= 1
+            d_ = resolve(x.id)
+            if d_ is not None:
+                return rec(d_)
+        if option_ok:
+            lk = _offset_option_lookup(x)
+            if lk is not None:
+                if option_given:
+                    return [(1, "OPTION")]
+                # the option is absent: the lookup yields its default (a subscript has none)
+                return None if lk == "subscript" else ([] if lk == "nodefault0" else rec(lk))
+            # `A if "heading-offset" in self.options else B` (or `not in`): the scenario selects the branch
+            if isinstance(x, ast.IfExp) and isinstance(x.test, ast.Compare) and len(x.test.ops) == 1 and isinstance(x.test.ops[0], (ast.In, ast.NotIn)) and isinstance(x.test.left, ast.Constant) and x.test.left.value == "heading-offset" and is_attr(x.test.comparators[0], "options"):
+                present_branch = x.body if isinstance(x.test.ops[0], ast.In) else x.orelse
+                absent_branch = x.orelse if isinstance(x.test.ops[0], ast.In) else x.body
+                return rec(present_branch if option_given else absent_branch)
         return None
 
     ts = rec(e)
@@ -2085,6 +2104,18 @@ def _offset_terms_text(ts: list) -> str:
     for s_, t_ in ts:
         out += (" + " if s_ > 0 else " - ") + names.get(t_, str(t_))
     return out[3:] if out.startswith(" + ") else out.strip()
+
+
+def _offset_option_lookup(v: ast.expr):
+    """None if ``v`` is not a lookup of options['heading-offset']; else 'subscript', 'nodefault0' (get with default 0) or the
+    default expression of ``options.get('heading-offset', <default>)``."""
+    if isinstance(v, ast.Subscript) and is_attr(v.value, "options") and isinstance(v.slice, ast.Constant) and v.slice.value == "heading-offset":
+        return "subscript"
+    if isinstance(v, ast.Call) and isinstance(v.func, ast.Attribute) and v.func.attr == "get" and is_attr(v.func.value, "options") and v.args and isinstance(v.args[0], ast.Constant) and v.args[0].value == "heading-offset" and not v.keywords:
+        if len(v.args) == 2:
+            d = v.args[1]
+            return "nodefault0" if (isinstance(d, ast.Constant) and d.value == 0 and not isinstance(d.value, bool)) else d
+    return None
 
 
 def _is_offset_option(v: ast.expr) -> bool:
@@ -2350,23 +2381,73 @@ def r4_save_restore(corpus: Corpus, rep: Report, tier: str):
     k = f"{cm.fq}|level map re-rooted at the temp root for the nested render"
     root_val = writes_pre["root"][0].value
     reroots = [w for w in writes_pre.get("map", []) if isinstance(w, ast.Assign)]
-    good_reroot = None
+
+    def leaves_not_root(e: ast.expr) -> list[ast.expr]:
+        """Leaves of a (possibly conditional) value expression that are not the temp root."""
+        if isinstance(e, ast.IfExp):
+            return leaves_not_root(e.body) + leaves_not_root(e.orelse)
+        if isinstance(e, ast.Name):
+            d_ = single_def(cm, e.id)
+            if d_ is not None and unparse(d_) == unparse(root_val):
+                return []
+        return [] if unparse(e) == unparse(root_val) else [e]
+
+    def filter_at_zero(test: ast.expr, kv: str) -> bool | None:
+        """Does the comprehension filter keep key 0?"""
+        if isinstance(test, ast.UnaryOp) and isinstance(test.op, ast.Not):
+            r_ = filter_at_zero(test.operand, kv)
+            return None if r_ is None else not r_
+        if isinstance(test, ast.Name) and test.id == kv:
+            return False
+        if isinstance(test, ast.Compare) and len(test.ops) == 1 and type(test.ops[0]) in REL_TXT:
+            l_, r_ = test.left, test.comparators[0]
+            val = lambda x: 0 if (isinstance(x, ast.Name) and x.id == kv) else (x.value if isinstance(x, ast.Constant) and isinstance(x.value, int) and not isinstance(x.value, bool) else None)  # noqa: E731
+            a_, b_ = val(l_), val(r_)
+            if a_ is not None and b_ is not None:
+                return {ast.Lt: a_ < b_, ast.LtE: a_ <= b_, ast.Gt: a_ > b_, ast.GtE: a_ >= b_, ast.Eq: a_ == b_, ast.NotEq: a_ != b_}[type(test.ops[0])]
+        return None
+
+    verdicts: list[tuple[ast.stmt, str | None]] = []  # (write, None = every entry is the root | what is wrong)
     for w in reroots:
         v = w.value
-        same = lambda e: unparse(e) == unparse(root_val)  # noqa: E731
-        if isinstance(v, ast.DictComp) and len(v.generators) == 1 and not v.generators[0].ifs and same(v.value) and _map_keys_iter(v.generators[0].iter) in ("keys", "items"):
-            tgt = v.generators[0].target
+        if isinstance(v, ast.DictComp) and len(v.generators) == 1 and _map_keys_iter(v.generators[0].iter) in ("keys", "items"):
+            gen = v.generators[0]
+            tgt = gen.target
             kv = tgt.id if isinstance(tgt, ast.Name) else (tgt.elts[0].id if isinstance(tgt, ast.Tuple) and isinstance(tgt.elts[0], ast.Name) else None)
-            if kv is not None and isinstance(v.key, ast.Name) and v.key.id == kv:
-                good_reroot = w
-        elif isinstance(v, ast.Call) and dotted(v.func) == "dict.fromkeys" and len(v.args) == 2 and _map_keys_iter(v.args[0]) == "keys" and same(v.args[1]):
-            good_reroot = w
-        elif isinstance(v, ast.Dict) and len(v.keys) == 1 and isinstance(v.keys[0], ast.Constant) and v.keys[0].value == 0 and same(v.values[0]):
-            good_reroot = w
-    if good_reroot is not None and _guard_set(cfg, good_reroot) == _guard_set(cfg, writes_pre["root"][0]):
+            if kv is None or not (isinstance(v.key, ast.Name) and v.key.id == kv):
+                raise Unsupported(f"re-rooting comprehension `{short(v, 50)}` does not keep the level keys")
+            bad_leaves = leaves_not_root(v.value)
+            if bad_leaves:
+                verdicts.append((w, f"some entries are mapped to `{short(bad_leaves[0], 30)}` instead of the temp root ({short(v.value, 70)}): those levels - level 0, the surrounding document, among them unless the condition "
+                                    "covers it - keep pointing at the surrounding nodes, so a heading whose parent level is one of them is attached outside the directive"))
+                continue
+            wrong = None
+            for t_ in gen.ifs:
+                kept = filter_at_zero(t_, kv)
+                if kept is None:
+                    raise Unsupported(f"filter `{short(t_, 40)}` of the re-rooting comprehension not understood")
+                if not kept:
+                    wrong = f"the filter `{short(t_, 40)}` drops level 0 from the re-rooted map: a heading in the directive body has no parent level below it"
+            verdicts.append((w, wrong))
+        elif isinstance(v, ast.Call) and dotted(v.func) == "dict.fromkeys" and len(v.args) == 2 and _map_keys_iter(v.args[0]) == "keys":
+            bl = leaves_not_root(v.args[1])
+            verdicts.append((w, None if not bl else f"every level is mapped to `{short(bl[0], 30)}`, not to the temp root"))
+        elif isinstance(v, ast.Dict) and v.keys and all(isinstance(k_, ast.Constant) for k_ in v.keys):
+            bl = [x for val_ in v.values for x in leaves_not_root(val_)]
+            if not any(k_.value == 0 for k_ in v.keys):
+                verdicts.append((w, "the re-rooted map has no level 0"))
+            else:
+                verdicts.append((w, None if not bl else f"a level is mapped to `{short(bl[0], 30)}`, not to the temp root"))
+        else:
+            raise Unsupported(f"the level map is rewritten before the yield as `{short(v, 50)}`: not recognised as re-rooting at the temp root")
+    good_reroot = next((w for w, why in verdicts if why is None), None)
+    bad_reroot = next(((w, why) for w, why in verdicts if why is not None), None)
+    if bad_reroot is not None:
+        rep.violation("C05.R4", k, base.site(bad_reroot[0]), f"while a temp root is set the level map is only partly re-rooted: {bad_reroot[1]}")
+    elif good_reroot is not None and _guard_set(cfg, good_reroot) == _guard_set(cfg, writes_pre["root"][0]):
         rep.ok("C05.R4", k, base.site(good_reroot), f"every open level maps to {unparse(root_val)} while the temp root is set")
-    elif reroots:
-        raise Unsupported(f"the level map is rewritten before the yield as `{short(reroots[0].value, 50)}`: not recognised as re-rooting at the temp root")
+    elif good_reroot is not None:
+        raise Unsupported("the level map is re-rooted under a different condition than the temp root is set")
     else:
         rep.violation(
             "C05.R4",
@@ -2446,32 +2527,56 @@ def r4_save_restore(corpus: Corpus, rep: Report, tier: str):
             v = ho
             if isinstance(v, ast.Name):
                 v = single_def(fi, v.id) or v
-            arg_ts = _offset_terms(v, None, None, option_ok=True) if v is not None else None
-            if ho is None or arg_ts is not None and not any(t_ == "OPTION" for _s, t_ in arg_ts):
+            loc = lambda nm, fi=fi: single_def(fi, nm)  # noqa: E731
+            given_ts = _offset_terms(v, None, None, option_ok=True, option_given=True, resolve=loc) if v is not None else None
+            absent_ts = _offset_terms(v, None, None, option_ok=True, option_given=False, resolve=loc) if v is not None else None
+            if ho is None or given_ts is not None and not any(t_ == "OPTION" for _s, t_ in given_ts):
                 rep.violation("C05.R4", k, site, f"the include mock passes heading_offset={unparse(ho) if ho is not None else '<default>'}: the :heading-offset: option has no effect on the included headings")
-            elif arg_ts is None:
+            elif given_ts is None:
                 rep.error("C05.R4", f"{site}: heading_offset={short(ho, 50)} not traced to options['heading-offset'] and the current offset")
             else:
-                # the offset in force inside the include: the pre-yield write with the parameter replaced by this argument
-                news = []
-                for w in writes_pre["offset"]:
-                    value = w.value if isinstance(w, ast.Assign) else ast.BinOp(left=w.target, op=w.op, right=w.value)
-                    wt = _offset_terms(value, off_param, cell_names=frozenset(nm for nm, _how, sst_ in saves.get("offset", []) if cfg.dominates(sst_, w) and len(name_assignments(cm, nm)) == 1))
-                    if wt is None:
-                        raise Unsupported(f"offset written as `{short(value, 40)}`")
+                # the offset in force inside the include: the pre-yield write with the parameter replaced by this argument,
+                # once for an include that carries the option and once for one that does not
+                if len(writes_pre["offset"]) != 1:
+                    raise Unsupported("several writes of the heading offset before the yield")
+                w = writes_pre["offset"][0]
+                value = w.value if isinstance(w, ast.Assign) else ast.BinOp(left=w.target, op=w.op, right=w.value)
+                wt = _offset_terms(value, off_param, cell_names=frozenset(nm for nm, _how, sst_ in saves.get("offset", []) if cfg.dominates(sst_, w) and len(name_assignments(cm, nm)) == 1))
+                if wt is None:
+                    raise Unsupported(f"offset written as `{short(value, 40)}`")
+
+                def in_force(arg_ts):
                     new = []
                     for s_, t_ in wt:
                         new += [(s_ * s2, t2) for s2, t2 in arg_ts] if t_ == "PARAM" else [(s_, t_)]
-                    news.append(sorted(new, key=lambda z: str(z[1])))
-                if len(news) != 1:
-                    raise Unsupported("several writes of the heading offset before the yield")
-                new = news[0]
-                if new == [(1, "CELL"), (1, "OPTION")]:
-                    rep.ok("C05.R4", k, site, f"heading_offset={short(ho, 60)}: inside the include the offset is the enclosing offset + the option")
-                elif new == [(1, "OPTION")]:
-                    rep.violation("C05.R4", k, site, f"inside the include the offset becomes the option alone (heading_offset={short(ho, 50)}): an include nested in a file that was itself included with :heading-offset: drops the enclosing offset, so its headings close the including document's sections")
+                    # cancel and order
+                    out_ = []
+                    for nm in sorted({str(t2) for _s2, t2 in new}):
+                        n_ = sum(s2 for s2, t2 in new if str(t2) == nm)
+                        t_obj = next(t2 for _s2, t2 in new if str(t2) == nm)
+                        out_ += [(1 if n_ > 0 else -1, t_obj)] * abs(n_)
+                    return out_
+
+                new_given = in_force(given_ts)
+                problems = []
+                if new_given == [(1, "OPTION")]:
+                    problems.append(
+                        f"for an include that carries :heading-offset: the offset becomes the option alone (heading_offset={short(ho, 60)}): nested in a file that was itself included with "
+                        ":heading-offset: it drops the enclosing offset, so its headings close the including document's sections"
+                    )
+                elif new_given != [(1, "CELL"), (1, "OPTION")]:
+                    problems.append(f"for an include that carries :heading-offset: the offset becomes {_offset_terms_text(new_given)} (heading_offset={short(ho, 50)}), not the enclosing offset + the option")
+                if absent_ts is None:
+                    if not (isinstance(v, ast.Subscript) or any(isinstance(n_, ast.Subscript) and _offset_option_lookup(n_) == "subscript" for n_ in ast.walk(v))):
+                        raise Unsupported(f"{site}: value of heading_offset={short(ho, 50)} for an include without the option not understood")
                 else:
-                    rep.violation("C05.R4", k, site, f"inside the include the offset becomes {_offset_terms_text(new)} (heading_offset={short(ho, 50)}), not the enclosing offset + the :heading-offset: option")
+                    new_absent = in_force(absent_ts)
+                    if new_absent != [(1, "CELL")]:
+                        problems.append(f"for an include without :heading-offset: the offset becomes {_offset_terms_text(new_absent)} instead of staying the enclosing offset")
+                if problems:
+                    rep.violation("C05.R4", k, site, "; ".join(problems))
+                else:
+                    rep.ok("C05.R4", k, site, f"heading_offset={short(ho, 60)}: inside the include the offset is the enclosing offset + the option (the enclosing offset alone without the option)")
         elif ho is not None:
             rep.error("C05.R4", f"{site}: {fi.qualname} passes heading_offset: caller not understood")
     if n_off != 1:
@@ -2856,6 +2961,29 @@ def mutants(corpus: Corpus):
         # 4629fdf: the level map is not re-rooted at the temp root
         reroot = find_node(cm, lambda n: isinstance(n, ast.Assign) and is_self_attr(n.targets[0], LEVEL_MAP) and isinstance(n.value, ast.DictComp))
         add("c05-revert-4629fdf-map-not-rerooted", "C05.R4", base, reroot, "pass", expect="re-rooted at the temp root")
+    # class: the level map is only partly re-rooted at the temp root
+    if cm is not None:
+        rr = find_node(cm, lambda n: isinstance(n, ast.Assign) and is_self_attr(n.targets[0], LEVEL_MAP) and isinstance(n.value, ast.DictComp))
+        if rr is not None and isinstance(rr.value.generators[0].target, ast.Name):
+            kv_ = rr.value.generators[0].target.id
+            rootv = seg(base, rr.value.value)
+            add("c05-reroot-only-open-sections", "C05.R4", base, rr.value,
+                f"{{{kv_}: {rootv} if isinstance(node, nodes.section) else node for {kv_}, node in self.{LEVEL_MAP}.items()}}", expect="only partly re-rooted")
+            add("c05-reroot-keeps-level-zero-at-document", "C05.R4", base, rr.value,
+                f"{{{kv_}: {rootv} if {kv_} else node for {kv_}, node in self.{LEVEL_MAP}.items()}}", expect="only partly re-rooted")
+            add("c05-reroot-drops-level-zero", "C05.R4", base, rr.value,
+                f"{{{kv_}: {rootv} for {kv_} in self.{LEVEL_MAP} if {kv_} > 0}}", expect="only partly re-rooted")
+        else:
+            out.append(("c05-reroot-partial", "re-rooting comprehension not found"))
+    # class: the include's offset argument composes only in one of the two cases (option given / option absent)
+    if call is not None and kwarg(call, "heading_offset") is not None:
+        hov = kwarg(call, "heading_offset")
+        cellx = next((n for n in ast.walk(hov) if is_attr(n, OFFSET)), None)
+        if cellx is not None:
+            cx = seg(mk, cellx)
+            add("c05-include-option-replaces-enclosing-offset", "C05.R4", mk, hov, f'self.options.get("heading-offset", {cx})', expect="heading-offset option")
+            add("c05-include-option-or-enclosing-offset", "C05.R4", mk, hov, f'self.options["heading-offset"] if "heading-offset" in self.options else {cx}', expect="heading-offset option")
+            add("c05-include-without-option-resets-offset", "C05.R4", mk, hov, f'{cx} + self.options["heading-offset"] if "heading-offset" in self.options else 0', expect="heading-offset option")
     # fce582c (b): a nested include replaced the enclosing offset
     if call is not None and kwarg(call, "heading_offset") is not None:
         opt = next((n for n in ast.walk(kwarg(call, "heading_offset")) if _is_offset_option(n)), None)
